@@ -134,6 +134,44 @@ def tie(ctx):
                                    "couplings": sum(1 for c in cs if not c[2].startswith(("key:", "iter:")))}}}
 
 
+def stored_options_history(spec, it_a, it_b):
+    """resolving never mutates the stored layers, so a stored option changed between two calculations takes effect:
+    store iter=a (+ an unknown key), calculate, compare the stored options and the defaults with copies taken before;
+    then store iter=b and calculate again - the limit in force must be b"""
+    import copy
+    import pandapipes as pp
+    import netgen
+    from pandapipes.pf import pipeflow_setup
+    fails = []
+    net = netgen.build(spec)
+    pp.set_user_pf_options(net, iter=it_a, my_own_key=[1, 2])
+    stored_before = copy.deepcopy(dict(net.user_pf_options))
+    defaults_before = copy.deepcopy(pipeflow_setup.default_options)
+    pipeflow_setup.init_options(net, tol_p=1e-5)        # option resolution alone (a full pipeflow additionally stores hyd_flag)
+    case = {"spec": spec, "it_u": it_a, "it_k": it_b, "layer": "history"}
+    if dict(net.user_pf_options) != stored_before:
+        fails.append({"fingerprint": "C14:stored-user-options-mutated", "clause": "resolving never mutates the stored user options",
+                      "detail": {"before": repr(stored_before), "after": repr(dict(net.user_pf_options))}, "replay": {"case": case}})
+    if pipeflow_setup.default_options != defaults_before:
+        fails.append({"fingerprint": "C14:defaults-mutated", "clause": "resolving never mutates the stored defaults",
+                      "detail": {"changed": sorted(k for k in defaults_before if pipeflow_setup.default_options.get(k) != defaults_before[k])},
+                      "replay": {"case": case}})
+        pipeflow_setup.default_options.clear()
+        pipeflow_setup.default_options.update(defaults_before)
+    pp.set_user_pf_options(net, iter=it_b)
+    try:
+        pp.pipeflow(net)
+    except Exception:
+        pass
+    o = net["_options"]
+    if o["max_iter_hyd"] != it_b or o["max_iter_therm"] != it_b or o["max_iter_bidirect"] != it_b:
+        fails.append({"fingerprint": "C14:stored-iter-change-ignored", "clause": "the stored value is the one in force",
+                      "detail": {"stored_iter_first": it_a, "stored_iter_second": it_b,
+                                 "in_force": [o["max_iter_hyd"], o["max_iter_therm"], o["max_iter_bidirect"]]},
+                      "replay": {"case": case}})
+    return fails
+
+
 def search(ctx, escalate=False):
     """observable effect on a real calculation: iteration budget and friction model actually used"""
     import pandapipes as pp
@@ -168,6 +206,9 @@ def search(ctx, escalate=False):
                               "replay": {"case": {"spec": spec, "it_u": it_u, "it_k": it_k, "layer": layer}}})
             if len(samples) < 3:
                 samples.append({"layer": layer, "iter_user": it_u, "iter_call": it_k, "iterations_used": used})
+        f = stored_options_history(spec, it_u, it_k)
+        n += 1
+        fails.extend(f)
     return {"evaluations": n, "distinct_nontrivial": len(hashes), "failures": fails, "samples": samples,
             "rule": "the correspondence enumerates every option key x presence pattern, every iter/stage-key pattern of both "
                     "layers and the couplings completely (see correspondence stats); the search additionally runs real "
@@ -175,4 +216,7 @@ def search(ctx, escalate=False):
 
 
 def replay(ctx, payload):
+    case = payload.get("case", {})
+    if case.get("layer") == "history":
+        return stored_options_history(case["spec"], case["it_u"], case["it_k"]) or None
     return None
